@@ -93,7 +93,7 @@ def stdlib_designs(tier):
   from ex02_cksum.ChecksumRTL import ChecksumRTL, StepUnit
   ds = []
   def add(cls, *a, limits=(), **k):
-    nm = cls.__name__ + '(' + ','.join([getattr(x, '__name__', repr(x)) for x in a] + [f'{n}={getattr(v, "__name__", v)!r}' for n, v in k.items()]) + ')'
+    nm = ('stream.' if cls.__module__.startswith('pymtl3.stdlib.stream') else '') + cls.__name__ + '(' + ','.join([getattr(x, '__name__', repr(x)) for x in a] + [f'{n}={getattr(v, "__name__", v)!r}' for n, v in k.items()]) + ')'
     ds.append(Design(nm, lambda cls=cls, a=a, k=k: cls(*a, **k), source=f'{cls.__module__}.{nm}', kind='stdlib', limits=limits))
   quick = tier == 'quick'
   for T in ([Bits8] if quick else [Bits1, Bits8, Bits32, mk_bits(65)]):
@@ -275,11 +275,12 @@ Definition all_mods_ok (chk : file -> module -> bool) (F : file) : bool := foral
 Definition case_ok (c : file * ident * list cyc) : bool :=
   let '(F, top, tr) := c in
   sv_wellformed F && agrees (simulate F top tr) && all_mods_ok sv_no_multi_driver F && all_mods_ok sv_all_driven F.
-Definition case_why (c : file * ident * list cyc) :=
-  let '(F, top, tr) := c in
-  (sv_wellformed F, simulate F top tr,
-   map (fun m => (m_name m, collisions (drivers F m))) (filter (fun m => negb (sv_no_multi_driver F m)) (f_modules F)),
-   map (fun m => (m_name m, undriven F m)) (filter (fun m => negb (sv_all_driven F m)) (f_modules F))).
+Definition why_wf (c : file * ident * list cyc) := let '(F, top, tr) := c in sv_wellformed F.
+Definition why_sim (c : file * ident * list cyc) := let '(F, top, tr) := c in simulate F top tr.
+Definition why_col (c : file * ident * list cyc) := let '(F, top, tr) := c in
+   map (fun m => (m_name m, collisions (drivers F m))) (filter (fun m => negb (sv_no_multi_driver F m)) (f_modules F)).
+Definition why_und (c : file * ident * list cyc) := let '(F, top, tr) := c in
+   map (fun m => (m_name m, undriven F m)) (filter (fun m => negb (sv_all_driven F m)) (f_modules F)).
 '''
 
 def text_key(text):
@@ -307,27 +308,31 @@ def param_values(mod):
   return pv
 
 def const_tree(e, pv):
-  """None, or (true value as python computes it, width, narrowed?, ops) for a constant sub-expression"""
+  """None, or (true value as python computes it, self-determined width, narrowed leaf?, ops, value SystemVerilog
+  computes self-determined) for a constant sub-expression"""
   k = e[0]
-  if k == 'lit': return (e[2], e[1], e[2] >= (1 << e[1]), [])
-  if k == 'cast' and e[2][0] == 'id' and e[2][1] in pv: return (pv[e[2][1]], e[1], pv[e[2][1]] >= (1 << e[1]), [])
-  if k == 'cast' and e[2][0] == 'lit': return (e[2][2], e[1], e[2][2] >= (1 << e[1]), [])
+  if k == 'lit': return (e[2], e[1], e[2] >= (1 << e[1]), [], e[2] % (1 << e[1]))
+  if k == 'cast' and e[2][0] == 'id' and e[2][1] in pv: v = pv[e[2][1]]; return (v, e[1], v >= (1 << e[1]), [], v % (1 << e[1]))
+  if k == 'cast' and e[2][0] == 'lit': v = e[2][2]; return (v, e[1], v >= (1 << e[1]), [], v % (1 << e[1]))
   if k == 'bin' and e[1] in PYOPS:
     a, b = const_tree(e[2], pv), const_tree(e[3], pv)
     if a is None or b is None: return None
-    if e[1] in ('BShl', 'BShr') and not (0 <= b[0] < 4096): return None
+    if e[1] in ('BShl', 'BShr') and not (0 <= b[0] < 4096 and 0 <= b[4] < 4096): return None
     if e[1] == 'BMod' and b[0] == 0: return None
     try: v = PYOPS[e[1]](a[0], b[0])
     except Exception: return None
     w = a[1] if e[1] in ('BShl', 'BShr') else max(a[1], b[1])
-    return (v, w, a[2] or b[2], a[3] + b[3] + [OPSYM[e[1]]])
+    svv = 0 if (e[1] == 'BMod' and b[4] == 0) else PYOPS[e[1]](a[4], b[4]) % (1 << w)
+    return (v, w, a[2] or b[2], a[3] + b[3] + [OPSYM[e[1]]], svv)
   return None
 
 def repair_expr(e, pv, hits):
+  """replace every maximal constant operator tree whose self-determined SystemVerilog value differs from the python
+  value by a literal holding the python value"""
   c = const_tree(e, pv)
-  if c is not None and c[3] and c[2]:
-    hits.append((c[3], e, c[0]))
-    return ('lit', c[1], c[0] % (1 << c[1]))
+  if c is not None and c[3] and c[0] >= 0 and c[4] != c[0]:
+    hits.append((c[3], e, c[0], 'narrowed' if c[2] else 'overflow'))
+    return ('lit', max(c[1], c[0].bit_length(), 1), c[0])
   k = e[0]; R = lambda x: repair_expr(x, pv, hits)
   if k in ('member',): return (k, R(e[1]), e[2])
   if k == 'range': return (k, R(e[1]), e[2], e[3])
@@ -378,3 +383,64 @@ def expr_text(e):
   if k == 'cond': return f'( {T(e[1])} ? {T(e[2])} : {T(e[3])} )'
   if k == 'cast': return f"{e[1]}'( {T(e[2])} )"
   return '?'
+
+# ---------------------------------------------------------------------- repair: sext of an indexed multi-bit element
+# visit_SignExt treats EVERY Index node as a one-bit select: sext( s.in_[1], 8 ) with 4-bit elements is emitted as
+# { { 4 { in_[1] } }, in_[1] } (the whole element replicated) instead of { { 4 { in_[1][3] } }, in_[1] }.
+def py_type_of(mod, e):
+  """python mirror of SvSizing.type_of for select chains: (ptype, dims) or None"""
+  k = e[0]
+  if k == 'id':
+    for _, (n, t, dims) in mod['ports']:
+      if n == e[1]: return t, list(dims)
+    for (n, t, dims) in mod['decls'] + [p for p, _ in mod['params']]:
+      if n == e[1]: return t, list(dims)
+    return None
+  if k == 'member':
+    r = py_type_of(mod, e[1])
+    if r and not r[1] and r[0][0] == 'struct':
+      for fn, ft in r[0][1]:
+        if fn == e[2]: return ft, []
+    return None
+  if k == 'index':
+    r = py_type_of(mod, e[1])
+    if not r: return None
+    if r[1]: return r[0], r[1][1:]
+    if r[0][0] == 'arr': return r[0][2], []
+    return ('bits', 1), []
+  if k == 'range': return ('bits', e[2] - e[3] + 1), []
+  if k == 'plus': return ('bits', e[3]), []
+  return None
+
+def repair_sext_element(f):
+  """in place; returns the number of rewritten sign extensions"""
+  count = [0]
+  def fix(mod, e):
+    k = e[0]; R = lambda x: fix(mod, x)
+    if k == 'concat' and len(e[1]) == 2 and e[1][0][0] == 'repl' and e[1][0][2] == e[1][1] and e[1][1][0] == 'index':
+      t = py_type_of(mod, e[1][1])
+      if t and not t[1] and svparse.pwidth(t[0]) > 1:
+        w = svparse.pwidth(t[0]); count[0] += 1
+        x = e[1][1]
+        return ('concat', [('repl', e[1][0][1], ('range', x, w - 1, w - 1)), x])
+    if k == 'member': return (k, R(e[1]), e[2])
+    if k == 'range': return (k, R(e[1]), e[2], e[3])
+    if k == 'index': return (k, R(e[1]), R(e[2]))
+    if k == 'plus': return (k, R(e[1]), R(e[2]), e[3])
+    if k == 'concat': return (k, [R(x) for x in e[1]])
+    if k in ('repl', 'un', 'cast'): return (k, e[1], R(e[2]))
+    if k == 'bin': return (k, e[1], R(e[2]), R(e[3]))
+    if k == 'cond': return (k, R(e[1]), R(e[2]), R(e[3]))
+    return e
+  def st(mod, x):
+    if x[0] in ('blk', 'nb'): return (x[0], fix(mod, x[1]), fix(mod, x[2]))
+    if x[0] == 'if': return ('if', fix(mod, x[1]), [st(mod, y) for y in x[2]], [st(mod, y) for y in x[3]])
+    return ('for', x[1], fix(mod, x[2]), x[3], fix(mod, x[4]), x[5], fix(mod, x[6]), [st(mod, y) for y in x[7]])
+  for m in f.modules:
+    items = []
+    for it in m['items']:
+      if it[0] == 'assign': items.append(('assign', fix(m, it[1]), fix(m, it[2])))
+      elif it[0] in ('comb', 'ff'): items.append((it[0], it[1], [st(m, y) for y in it[2]]))
+      else: items.append((it[0], it[1], it[2], [(p, fix(m, e)) for p, e in it[3]]))
+    m['items'] = items
+  return count[0]
